@@ -937,7 +937,7 @@ func genMeCase(t *rapid.T, ks *verifkit.KnownSet) meCase {
 
 func TestVerifMeasureEngineC15(t *testing.T) {
 	verifkit.Run(t, verifkit.Spec[meCase]{
-		Property: "C15", Unit: "measure_engine_parity",
+		Property: "C15", Unit: "measure_engine_parity", CrashReplay: true,
 		Rule: "1..5 write batches of 1..25 data points (6 series, one point per series and timestamp, nullable int/float fields and a nullable non-indexed " +
 			"tag, two tags under inverted index rules = series-level values) through the real measure write callback into a real TSDB, flush and " +
 			"file-part merges of chosen parts in between; requests through both real planners over the real storage: projections in any order, " +
@@ -975,7 +975,7 @@ func TestVerifMeasureEngineC15(t *testing.T) {
 
 func TestVerifMeasureEngineC10(t *testing.T) {
 	verifkit.Run(t, verifkit.Spec[meCase]{
-		Property: "C10", Unit: "measure_engine",
+		Property: "C10", Unit: "measure_engine", CrashReplay: true,
 		Rule: "the histories and requests of C15 measure_engine_parity (real write callback, TSDB, flush/merge steps, both planners), with every query a " +
 			"group-by aggregation over 1..3 tags (entity, indexed and plain tags, nullable) with SUM/COUNT/MIN/MAX/MEAN over the int or float field and a " +
 			"window that does not cut; oracle: the row plan's response holds exactly one data point per group formed by the written rows that match " +
